@@ -655,10 +655,56 @@ def check_C19(tier, seed):
         rp.add_inconclusive("only %d of %d configurations were observed" % (rows, len(grid)))
     return rp.finish()
 
+def check_C20(tier, seed):
+    rp = Report("C20", tier, seed, "exploration")
+    rp.rule = ("gdb 13 in batch mode loads the shipped printer module exactly as the README says and stops at checkpoint() after every operation of an uninstrumented -O0 -g inferior that walks random "
+               "histories over small_vector<int,0/2/4>, <std::string,0/2>, <struct,4>, <int,3,stateful allocator>, <long,default N>; at each stop the printer's to_string() length/capacity, children() count and every "
+               "child value, the iterator / const_iterator / value-initialised-iterator printers, and every expression of the natvis file (m_data.m_size, m_data.m_capacity, m_data.m_data_ptr, inline_capacity_v "
+               "conditions, m_alloc, m_ptr, *m_ptr) evaluated by gdb on the same object are compared with the program's own dump (size(), capacity(), inlined(), data(), iteration); "
+               "tuple = (element type/N, empty|inline|heap, full|slack, last op)")
+    rp.assumptions = ["natvis rendering by Visual Studio itself is not executed; only the member paths are resolved (through gdb, on GCC/Clang DWARF)"]
+    builds = [("g++", ["-std=c++17", "-O0", "-g"])]
+    if tier != "quick":
+        builds += [("clang++", ["-std=c++17", "-O0", "-g"]), ("g++", ["-std=c++20", "-O0", "-g"]), ("g++", ["-std=c++11", "-O0", "-g", "-Dconstexpr_if="])]
+    builds = builds[:3]
+    specs = [{"src": "gdbinf.cpp", "cc": cc, "flags": fl, "name": "gdbinf"} for cc, fl in builds]
+    bins = build_many(specs)
+    runs = 6 if tier == "quick" else 24
+    steps = 300 if tier == "quick" else 1200
+    out_dir = os.path.join(svlib.CACHE, "gdbmon-out")
+    os.makedirs(out_dir, exist_ok=True)
+    cmds, outs = [], []
+    for bi, b in enumerate(bins):
+        if isinstance(b, BuildError):
+            rp.add_violation("gdbmon|C20|inferior-rejected|%s" % builds[bi][0], "the debugger inferior does not compile: %s" % b.diag[-2000:], {"engine": "gdbmon", "replay_cmd": ["false"]})
+            continue
+        for r in range(runs if bi == 0 else max(2, runs // 3)):
+            out = os.path.join(out_dir, "out-%s-%d-%d-%d.jsonl" % (tier, seed, bi, r))
+            cmds.append(["env", "SVMON_OUT=" + out, "SVMON_SUPPORT=" + os.path.join(svlib.REPO, "source", "support"),
+                         "gdb", "-q", "-batch", "-nx", "-x", os.path.join(svlib.VERIF, "bin", "gdbmon.py"), "--args", b, str(seed * 1000 + r * 17 + bi), str(steps)])
+            outs.append(out)
+    for o in outs:
+        if os.path.exists(o):
+            os.remove(o)
+    results = run_many(cmds, timeout=1500)
+    for res, out in zip(results, outs):
+        meta = {"engine": "gdbmon", "config": os.path.basename(out), "config_class": "gdb", "mode": "gdbmon", "replay_cmd": res["cmd"]}
+        text = open(out).read() if os.path.exists(out) else ""
+        r2 = dict(res)
+        r2["out"] = text
+        if res["rc"] != 0 and not text:
+            rp.add_inconclusive("gdb run failed (%s): %s" % (res["rc"], (res["err"] or res["out"])[-500:]))
+            continue
+        r2["rc"] = 0
+        parse_engine_output(r2, rp, "C20", meta)
+    floor(rp, "checkpoints", 500, "checkpoints inspected through the printers")
+    floor(rp, "m_alloc-resolved", 10, "natvis m_alloc path resolved on a stateful allocator")
+    return rp.finish()
+
 
 CHECKS = {
     "C01": check_C01, "C02": check_C02, "C03": check_C03, "C04": check_C04, "C05": check_C05, "C06": check_C06,
-    "C07": check_C07, "C09": check_C09, "C10": check_C10, "C11": check_C11, "C15": check_C15, "C12": check_C12, "C14": check_C14, "C16": check_C16, "C18": check_C18, "C19": check_C19,
+    "C07": check_C07, "C09": check_C09, "C10": check_C10, "C11": check_C11, "C15": check_C15, "C12": check_C12, "C14": check_C14, "C16": check_C16, "C18": check_C18, "C19": check_C19, "C20": check_C20,
 }
 
 
